@@ -31,3 +31,32 @@ package harfbuzz
 //@   loop 3 invariant [i-range] start <= i && i <= end
 //@   loop 3 invariant [assigned] forall(k, start, i, info[k].Mask == mask)
 //@   loop 3 invariant [done] forall(j, 0, start-1, implies(info[j].Cluster == info[j+1].Cluster, info[j].Mask == info[j+1].Mask))
+//
+// ---------------------------------------------------------------------------------------------
+// Property C01 (clauses "shaping returns without panicking", "every glyph's cluster index lies inside the run"):
+// AddRunes is the entry of the text into the buffer. Its precondition is read off its index expressions
+// (text[itemOffset : itemOffset+itemLength], text[prev], text[itemOffset+itemLength : s]); the caller
+// (shaping.HarfbuzzShaper.Shape) must establish it for arbitrary user-supplied run bounds.
+// AddRunes itself is outside the subset (Buffer.context is an array of slices), so its contract is TRUSTED: only
+// callers are checked against it.
+//@ trusted Buffer.AddRunes
+//@   requires [item-in-text] 0 <= itemOffset && itemOffset <= len(text) && (itemLength < 0 || itemOffset+itemLength <= len(text))
+//@   modifies all(Buffer); all(GlyphInfo); all(GlyphPosition); all(rune)
+//
+// The rest of the HarfBuzz port is outside the reach of this verification. The entry points used by
+// shaping.HarfbuzzShaper.Shape are TRUSTED with frames only (what they may write), so that facts about the caller's
+// own state survive the calls; nothing is assumed about the shaping result.
+//@ trusted NewBuffer
+//@   ensures [non-nil] result != nil
+//@   modifies nothing
+//@ trusted Buffer.Clear
+//@   modifies all(Buffer); all(GlyphInfo); all(GlyphPosition); all(rune)
+//@ trusted NewFont
+//@   ensures [captures-face] result != nil && result.face == face
+//@   modifies nothing
+//@ trusted Buffer.Shape
+//@   modifies unspecified
+//@ trusted Font.GlyphExtents
+//@   modifies unspecified
+//@ trusted Font.ExtentsForDirection
+//@   modifies nothing
